@@ -117,10 +117,17 @@ static const char *RELAX[9] = {"gauss_seidel", "ilu0", "iluk", "ilup", "ilut", "
 
 struct CycleParams { int ncycle = 1, npre = 1, npost = 1, pre_cycles = 1, max_levels = 0 /*0: unlimited*/, coarse_enough = -1 /*-1: max(2,n/8)*/; bool direct_coarse = true; };
 struct PrecondCfg {
-    std::string name; int cls;              // 0 amg, 1 relaxation, 2 dummy
-    std::string coars, relax; CycleParams cy;
+    std::string name; int cls;              // 0 amg, 1 relaxation, 2 dummy, 3 nested (inner CG with a fixed small iteration count: a NON-linear preconditioner)
+    std::string coars, relax; CycleParams cy; int inner_iters = 1;
     ptree build(int nrows) const {
         ptree p;
+        if (cls == 3) {
+            p.put("class", "nested");
+            p.put("precond.class", "amg"); p.put("precond.coarsening.type", "smoothed_aggregation"); p.put("precond.relax.type", "spai0");
+            p.put("precond.coarse_enough", std::max(2, nrows / 8));
+            p.put("solver.type", "cg"); p.put("solver.maxiter", inner_iters); p.put("solver.tol", 1e-30);
+            return p;
+        }
         if (cls == 2) { p.put("class", "dummy"); return p; }
         if (cls == 1) { p.put("class", "relaxation"); p.put("type", relax); return p; }
         p.put("class", "amg"); p.put("coarsening.type", coars); p.put("relax.type", relax);
@@ -699,6 +706,16 @@ int main(int argc, char **argv) {
         std::vector<System> core; for (auto &s : sys) for (auto nm : {"grid2d_4x4_uniform_c1", "grid2d_6x5_checker_c100", "grid1d_8_stripeX_c10", "grid3d_3_uniform_c1", "convdiff2d_6_pe2_b(1,0.5)", "aniso2d_6_eps0.01"}) if (s.name == nm) core.push_back(s);
         product_section(core, pcs, scs, "full", 2);
         vf::space(vf::KS() << "complete rhs(5) x x0(4) x maxiter(6) product on " << core.size() << " core systems x all 46 x " << scs.size() << " configs");
+    }
+    // ---- variable (nested, non-linear) preconditioner: truthfulness must not rest on the preconditioner being a fixed linear
+    //      operator.  Right / unpreconditioned-residual configurations only (a left-preconditioned residual has no meaning here).
+    {
+        std::vector<PrecondCfg> np;
+        for (int k : {1, 2, 3}) { PrecondCfg p; p.cls = 3; p.inner_iters = k; p.name = std::string("nested:sa+spai0+cg") + std::to_string(k); np.push_back(p); }
+        std::vector<SolverCfg> rs; for (auto &sc : scs) if (sc.side != 0 && sc.type != "richardson") rs.push_back(sc);
+        std::vector<System> ns; for (auto &s : sys0) if (s.spd_mmatrix && s.A.n >= 16 && ns.size() < (T ? 6u : 3u)) ns.push_back(s);
+        product_section(ns, np, rs, "nest", 0);
+        vf::space(vf::KS() << "nested preconditioner (inner AMG+CG limited to 1,2,3 iterations) x " << ns.size() << " SPD systems x " << rs.size() << " right/none-side solver configs");
     }
     // ---- all connected graphs
     {
